@@ -20,7 +20,7 @@ CATALOGUE = ["Mass", "Length", "Duration", "Area", "Volume", "Speed", "Accelerat
 
 
 def plan(env, tier, seed):
-    n = 12 if tier == "quick" else 600
+    n = 40 if tier == "quick" else 2500
     tasks = []
     for b, e in env.items():
         for ty in CATALOGUE:
